@@ -206,13 +206,22 @@ def _check_inlinable(h):
         if isinstance(n, ast.FunctionDef) and n is not h:
             raise NotInlinable("nested def")
     # returns only at tail positions of if-chains
-    def tail_ok(stmts):
+    def tail_ok(stmts, top=True):
         for i, s in enumerate(stmts):
             if isinstance(s, ast.Return):
                 continue
             if isinstance(s, ast.If):
-                tail_ok(s.body)
-                tail_ok(s.orelse)
+                tail_ok(s.body, top)
+                tail_ok(s.orelse, top)
+            elif isinstance(s, ast.Try) and i == len(stmts) - 1 and not s.finalbody and _returns_inside(s):
+                # try: ..; return A  except E: return B   at the very end: every
+                # path through it ends in a return (or falls off the end)
+                for blk in [s.body, s.orelse] + [hh.body for hh in s.handlers]:
+                    for k, x in enumerate(blk):
+                        if _returns_inside(x) and not (isinstance(x, ast.Return) and k == len(blk) - 1):
+                            raise NotInlinable("return in the middle of a try block")
+                if s.orelse and s.body and isinstance(s.body[-1], ast.Return):
+                    raise NotInlinable("return before else")
             elif _returns_inside(s):
                 raise NotInlinable("return inside loop/try/with")
     tail_ok(h.body)
@@ -240,6 +249,17 @@ def _lower(stmts, make):
             nb = _lower(body, make)
             no = _lower(orelse, make)
             new = ast.If(test=s.test, body=nb or [ast.Pass()], orelse=no)
+            ast.copy_location(new, s)
+            out.append(new)
+            return out
+        if isinstance(s, ast.Try) and _returns_inside(s):
+            # tail try (checked by _check_inlinable): lower each block separately;
+            # a block that falls off its end continues with `return None`
+            def blk(b):
+                return _lower(list(b), make) or [ast.Pass()]
+            body = blk(s.body) if not s.orelse else list(s.body)
+            new = ast.Try(body=body, handlers=[ast.copy_location(ast.ExceptHandler(type=hh.type, name=hh.name, body=blk(hh.body)), hh) for hh in s.handlers],
+                          orelse=blk(s.orelse) if s.orelse else [], finalbody=[])
             ast.copy_location(new, s)
             out.append(new)
             return out
@@ -703,7 +723,8 @@ def _split_tuple_assigns(fnode, unknown):
                 reads = set()
                 for v in s.value.elts:
                     reads |= _names(v)
-                if not (reads & set(tnames)) and all(_pure(v, allow_alloc=True) for v in s.value.elts):
+                n_impure = sum(1 for v in s.value.elts if not _pure(v, allow_alloc=True))
+                if not (reads & set(tnames)) and n_impure <= 1:
                     new = []
                     for t, v in zip(s.targets[0].elts, s.value.elts):
                         a = ast.Assign(targets=[t], value=v, type_comment=None)
@@ -736,6 +757,183 @@ def _sink_after_if(fnode, unknown, cnt):
                     continue
             i += 1
     return changed
+
+
+UNSAFE_HANDLER = {"Exception", "BaseException", "TypeError", "ValueError", "AttributeError", "IndexError", "KeyError", "ArithmeticError", "ZeroDivisionError", "RuntimeError", "NameError"}
+
+
+def _sink_after_try(fnode, unknown, cnt):
+    """try: ..; u = A  except E: u = B ;  S(u)   ->  S pushed to the end of the
+    try body (when S cannot raise what the handlers catch; else-clause
+    otherwise) and of every handler that falls through"""
+    changed = False
+    for block in _all_blocks(fnode):
+        i = 0
+        while i + 1 < len(block):
+            I, S = block[i], block[i + 1]
+            if isinstance(I, ast.Try) and not I.finalbody and isinstance(S, (ast.Assign, ast.AugAssign, ast.Expr, ast.If)):
+                reads = _names(S, ast.Load) & unknown
+                inner = set()
+                for n in ast.walk(I):
+                    if isinstance(n, ast.Name) and isinstance(n.ctx, ast.Store):
+                        inner.add(n.id)
+                flag_test = False
+                if isinstance(S, ast.If) and isinstance(S.test, ast.Compare) and isinstance(S.test.left, ast.Name) and len(S.test.ops) == 1 and isinstance(S.test.ops[0], (ast.Is, ast.IsNot)) and _const_kind(S.test.comparators[0]) == ("none",):
+                    # a status flag set to a literal by the try body and by every handler
+                    fl = S.test.left.id
+                    blocks_ = [I.body] + [hh.body for hh in I.handlers]
+                    flag_test = all(any(isinstance(x, ast.Assign) and len(x.targets) == 1 and isinstance(x.targets[0], ast.Name) and x.targets[0].id == fl and _const_kind(x.value) is not None for x in b) for b in blocks_)
+                reads = reads if not flag_test else (reads | {S.test.left.id})
+                if reads & inner:
+                    safe = not _has(S, ast.Call) and not isinstance(S, ast.If)
+                    for hh in I.handlers:
+                        if hh.type is None:
+                            safe = False
+                        else:
+                            for t in (hh.type.elts if isinstance(hh.type, ast.Tuple) else [hh.type]):
+                                nm = t.id if isinstance(t, ast.Name) else (t.attr if isinstance(t, ast.Attribute) else None)
+                                if nm is None or nm in UNSAFE_HANDLER:
+                                    safe = False
+
+                    def into(stmts):
+                        if stmts and isinstance(stmts[-1], (ast.Return, ast.Raise, ast.Break, ast.Continue)):
+                            return
+                        stmts.append(clone(S))
+                    if I.orelse or not safe:
+                        into(I.orelse)
+                    else:
+                        into(I.body)
+                    for hh in I.handlers:
+                        into(hh.body)
+                    del block[i + 1]
+                    cnt.stats["stores_sunk"] += 1
+                    changed = True
+                    continue
+            i += 1
+    return changed
+
+
+def _merge_safe_orelse(fnode, cnt):
+    """try: A  except E: ..  else: S   ->  try: A; S  except E: ..   when S
+    cannot raise anything the handlers catch (plain name/tuple assignments)"""
+    changed = False
+    for n in ast.walk(fnode):
+        if isinstance(n, ast.Try) and n.orelse and not n.finalbody:
+            safe = all(isinstance(S, ast.Assign) and not _has(S, (ast.Call, ast.Subscript, ast.Attribute, ast.BinOp)) for S in n.orelse)
+            for hh in n.handlers:
+                if hh.type is None:
+                    safe = False
+                else:
+                    for t in (hh.type.elts if isinstance(hh.type, ast.Tuple) else [hh.type]):
+                        nm = t.id if isinstance(t, ast.Name) else (t.attr if isinstance(t, ast.Attribute) else None)
+                        if nm is None or nm in UNSAFE_HANDLER:
+                            safe = False
+            if safe:
+                n.body.extend(n.orelse)
+                n.orelse = []
+                changed = True
+    return changed
+
+
+def _const_kind(e):
+    """('none',) / ('member', text) / ('const', value) for literal values"""
+    if isinstance(e, ast.Constant):
+        return ("none",) if e.value is None else ("const", repr(e.value))
+    if isinstance(e, ast.Attribute) and isinstance(e.value, ast.Name) and e.value.id[:1].isupper() and e.attr.isupper():
+        return ("member", ast.unparse(e))      # Enum member (ExitStatus.X): never None, distinct members differ
+    return None
+
+
+def _fold_known_tests(fnode, unknown, cnt):
+    """u = <literal> ; if u is not None: ..  /  v = u != Enum.X   with the literal
+    definition of the unknown u immediately dominating in the same straight
+    line: the test is decided"""
+    changed = False
+    seeds = {}
+
+    def end_env(block):
+        env = {}
+        for S in block:
+            if isinstance(S, ast.Assign) and len(S.targets) == 1 and isinstance(S.targets[0], ast.Name):
+                k = _const_kind(S.value)
+                if k is not None:
+                    env[S.targets[0].id] = k
+                else:
+                    env.pop(S.targets[0].id, None)
+            else:
+                for nm in _names(S, (ast.Store, ast.Del)):
+                    env.pop(nm, None)
+        return env
+    for n in ast.walk(fnode):
+        if isinstance(n, ast.Try) and n.orelse:
+            seeds[id(n.orelse)] = end_env(n.body)     # the else clause runs right after the body
+    for block in _all_blocks(fnode):
+        env = dict(seeds.get(id(block), {}))
+        i = 0
+        while i < len(block):
+            S = block[i]
+            if isinstance(S, ast.Assign) and len(S.targets) == 1 and isinstance(S.targets[0], ast.Name):
+                # fold comparisons of known literals inside the value
+                folded = _fold_expr(S.value, env)
+                if folded is not None:
+                    S.value = folded
+                    changed = True
+                k = _const_kind(S.value)
+                if k is not None:
+                    env[S.targets[0].id] = k
+                else:
+                    env.pop(S.targets[0].id, None)
+                i += 1
+                continue
+            if isinstance(S, ast.If):
+                v = _eval_test(S.test, env)
+                if v is not None:
+                    repl = S.body if v else S.orelse
+                    block[i:i + 1] = repl
+                    cnt.stats["tests_folded"] = cnt.stats.get("tests_folded", 0) + 1
+                    changed = True
+                    continue
+            # anything else: forget what it may rebind
+            for nm in _stores_of(S)[0]:
+                env.pop(nm, None)
+            if isinstance(S, (ast.For, ast.While, ast.Try, ast.With, ast.If)):
+                for nm in list(env):
+                    if nm in _names(S, ast.Store):
+                        env.pop(nm, None)
+            i += 1
+        # dead code after an unconditional exit
+        for j, S in enumerate(block):
+            if isinstance(S, (ast.Return, ast.Raise, ast.Break, ast.Continue)) and j + 1 < len(block):
+                del block[j + 1:]
+                changed = True
+                break
+    return changed
+
+
+def _eval_test(t, env):
+    if isinstance(t, ast.Compare) and len(t.ops) == 1 and isinstance(t.left, ast.Name) and t.left.id in env:
+        k = env[t.left.id]
+        r = _const_kind(t.comparators[0])
+        op = t.ops[0]
+        if r is None:
+            return None
+        if isinstance(op, (ast.Is, ast.IsNot)) and r == ("none",):
+            return (k == ("none",)) == isinstance(op, ast.Is)
+        if isinstance(op, (ast.Eq, ast.NotEq)) and k[0] == r[0] == "member":
+            return (k == r) == isinstance(op, ast.Eq)
+        if isinstance(op, (ast.Eq, ast.NotEq)) and {k[0], r[0]} == {"none", "member"}:
+            return isinstance(op, ast.NotEq)
+    if isinstance(t, ast.UnaryOp) and isinstance(t.op, ast.Not):
+        v = _eval_test(t.operand, env)
+        return None if v is None else not v
+    return None
+
+
+def _fold_expr(e, env):
+    v = _eval_test(e, env)
+    if v is not None:
+        return ast.copy_location(ast.Constant(v), e)
+    return None
 
 
 def _push(I, S):
@@ -1213,6 +1411,50 @@ def _alias_rename(fnode, unknown, known_locals, cnt):
     return False
 
 
+def _dead_stores(fnode, unknown, cnt):
+    """an unknown local whose every read is preceded, in the same straight
+    line, by a definition: its other (pure) definitions are never read"""
+    changed = False
+    for u in sorted(unknown):
+        loads = [n for n in ast.walk(fnode) if isinstance(n, ast.Name) and n.id == u and isinstance(n.ctx, ast.Load)]
+        covered = set()
+        live_defs = set()
+        all_defs = []
+        for block in _all_blocks(fnode):
+            cur = None
+            for S in block:
+                ls = _loads_of(S, u)
+                simple = not isinstance(S, (ast.If, ast.For, ast.While, ast.Try, ast.With))
+                if ls:
+                    if cur is not None and simple:
+                        covered |= {id(x) for x in ls}
+                        live_defs.add(id(cur))
+                    elif cur is not None and not simple and u not in _names(S, (ast.Store, ast.Del)):
+                        covered |= {id(x) for x in ls}
+                        live_defs.add(id(cur))
+                if simple and isinstance(S, ast.Assign) and len(S.targets) == 1 and isinstance(S.targets[0], ast.Name) and S.targets[0].id == u:
+                    # (the value of the new definition may read the previous one - handled above)
+                    cur = S
+                    all_defs.append((block, S))
+                elif u in _names(S, (ast.Store, ast.Del)):
+                    cur = None
+                    if simple:
+                        all_defs.append((block, None))     # a store of another form (tuple target, del, ..)
+                    # compound statement: its inner blocks are scanned on their own
+        if not loads or any(id(x) not in covered for x in loads):
+            continue
+        if any(S is None for _, S in all_defs):
+            continue
+        for block, S in all_defs:
+            if id(S) not in live_defs and _pure(S.value, allow_alloc=True):
+                block.remove(S)
+                if not block:
+                    block.append(ast.copy_location(ast.Pass(), S))
+                cnt.stats["dead_stores"] = cnt.stats.get("dead_stores", 0) + 1
+                changed = True
+    return changed
+
+
 def _alias_collapse(fnode, unknown, cnt):
     """T4: u = E ; ... ; t = u   (u unknown; every read of u has this form and
     t is untouched in between)  ->  t = E ; ..."""
@@ -1234,17 +1476,19 @@ def _alias_collapse(fnode, unknown, cnt):
                 S = block[j]
                 if u not in _names(S):
                     continue
-                if isinstance(S, ast.Assign) and len(S.targets) == 1 and isinstance(S.targets[0], ast.Name) and isinstance(S.value, ast.Name) and S.value.id == u:
-                    t = S.targets[0].id
+                if isinstance(S, ast.Assign) and len(S.targets) == 1 and isinstance(S.targets[0], (ast.Name, ast.Tuple)) and isinstance(S.value, ast.Name) and S.value.id == u \
+                        and all(isinstance(x, ast.Name) for x in (S.targets[0].elts if isinstance(S.targets[0], ast.Tuple) else [S.targets[0]])):
+                    t = S.targets[0]
+                    tn = _names(t)
                     between = block[i + 1:j]
-                    if not any(t in _names(b) for b in between) and t not in _names(D.value) | {u}:
+                    if not any(tn & _names(b) for b in between) and not (tn & (_names(D.value) | {u})):
                         # (every read of u is accounted for by exactly one plan, see below)
                         plans.setdefault(u, []).append((block, D, S, t))
                 break
     for u, ps in plans.items():
         if len(ps) == len(loads.get(u, [])) == nstores.get(u, 0):
             for block, D, S, t in ps:
-                D.targets[0].id = t
+                D.targets = [t]
                 block.remove(S)
             cnt.stats["aliases_collapsed"] = cnt.stats.get("aliases_collapsed", 0) + len(ps)
             return True
@@ -1279,7 +1523,7 @@ def _normalize_locals(fnode, known_locals, self_name, cnt, ref_defs=None):
         _restore_names(fnode, known_locals, ref_defs, cnt)
         if cnt.stats.get("names_restored", 0) != before:
             _drop_self_assigns(fnode)
-    for _ in range(24):
+    for _ in range(300):
         assigned = set()
         comp_targets = set()
         # names bound by comprehensions are not locals of the function
@@ -1300,11 +1544,19 @@ def _normalize_locals(fnode, known_locals, self_name, cnt, ref_defs=None):
             continue
         if _sink_after_if(fnode, unknown, cnt):
             continue
+        if _sink_after_try(fnode, unknown, cnt):
+            continue
+        if _fold_known_tests(fnode, unknown, cnt):
+            continue
+        if _merge_safe_orelse(fnode, cnt):
+            continue
         if _field_alias(fnode, unknown, self_name, cnt):
             continue
         if _forward_subst(fnode, unknown, cnt):
             continue
         if _invariant_subst(fnode, unknown, cnt):
+            continue
+        if _dead_stores(fnode, unknown, cnt):
             continue
         if _alias_collapse(fnode, unknown, cnt):
             continue
